@@ -515,6 +515,8 @@ Proof.
   - unfold fund in H. inversion H; subst. exact I.
   - unfold slash_val in H. destruct (negb (has_val s v)); inversion H; subst; exact I.
   - unfold env_val in H. inversion H; subst. exact I.
+  - unfold slash_past in H. inversion H; subst. exact I.
+  - unfold env_stat in H. inversion H; subst. exact I.
   - unfold exec_batch in H. guards H. inversion H; subst. exact I.
   - eapply export_import_idx; eauto.
   - unfold observe_set in H. guards H. inversion H; subst. exact I.
